@@ -158,12 +158,17 @@ class Builder:
                 k = int(rng.integers(0, n + 1))          # k = 0: a barrier over no modes is constructible too
                 modes = sorted(rng.choice(n, size=k, replace=False).tolist())
                 self.last = ['barrier', modes, self.state(c)]
-                c.barrier(modes)
+                arg = list(modes)
+                c.barrier(arg)
+                arg.append(0)          # the caller's list is the caller's: changing it later must not matter
+                arg.reverse()
                 log.append(["barrier", modes])
         elif kind == "swaps":
             d = random_swaps(rng, n)
             self.last = ['swaps', d, self.state(c)]
-            c.mode_swaps(d)
+            arg = dict(d)
+            c.mode_swaps(arg)
+            arg.clear()                # idem for the swap dictionary
             log.append(["swaps", d])
         elif kind == "unitary":
             k = int(rng.integers(1, min(n, 4) + 1))
@@ -171,7 +176,12 @@ class Builder:
             seed = int(rng.integers(1 << 30))
             u = haar(np.random.default_rng(seed), k)
             self.last = ['unitary', m, k, seed, self.state(c)]
-            c.add(self.lw.Unitary(u), m)
+            arr = np.array(u)
+            un = self.lw.Unitary(arr)
+            if rng.random() < 0.5:
+                arr[...] = 0           # ... and for the array a Unitary was built from
+            c.add(un, m)
+            arr[...] = 1
             log.append(["unitary", m, k, seed])
         return kind
 
